@@ -63,6 +63,24 @@ import (
 //     concurrently, nothing after the exporter's own Shutdown, no unsampled and
 //     no unknown span.
 //
+// SECOND PROCESSORS (round 10). 0-3 further batch span processors, each with
+// its own recording exporter, live in the same process: a generated one is
+// created after a generated number of ops of the first one's program (mostly
+// right after the first Shutdown call, i.e. possibly while the first one's
+// worker is still exporting / draining after a Shutdown that ran into its
+// context), mostly with the SAME MaxExportBatchSize, and is used at once (End
+// bursts, ForceFlush with live contexts); after the first one's closing
+// section it gets End, ForceFlush(live), Shutdown(live). The statement is
+// about every batch span processor, so each is held to it against its own
+// exporter (all its calls are live and sequential, its queue cannot fill):
+// every sampled span ended before a call that returned nil is at ITS exporter
+// when the call returns (lost / not_flushed), exactly once (exported_twice),
+// batches within its maximum, only spans its own program ended - no nil entry,
+// no span of another processor - (unknown_span_exported), nothing after its
+// Shutdown returned (export_after_shutdown), its exporter never entered
+// concurrently. Spans carry the processor's number in the TraceID, so a span
+// turning up at the wrong exporter is recognised on both sides.
+//
 // Nothing is asserted about which error a call returns, about calls that
 // returned an error, or about the exporter being shut down.
 
@@ -87,7 +105,31 @@ type LifeCase struct {
 	ExportTimeoutUs int64 `json:"export_timeout_us"`
 	Exporter        []int `json:"exporter"` // recExporter script
 	Ops             []LOp `json:"ops"`
+	// Second: further batch span processors of the same process, each with its
+	// own exporter, created and used while the first one's program is under way.
+	Second []SecondProc `json:"second,omitempty"`
 }
+
+// SecondProc is another batch span processor living in the same process as the
+// first one: it is created after At ops of the first processor's program have
+// run (typically right after the first - possibly failed - Shutdown call, when
+// the first processor's worker may still be draining), its Ops (end / flush
+// with live contexts) run at that point, and after the first processor's
+// closing section it gets End, ForceFlush(live), Shutdown(live). It is judged
+// against ITS OWN exporter with the same clauses: the statement holds for every
+// batch span processor, whatever other processors of the process are doing.
+type SecondProc struct {
+	At       int   `json:"at"`
+	Queue    int   `json:"queue"`
+	Batch    int   `json:"batch"` // generated equal to the first one's in most cases
+	Blocking bool  `json:"blocking"`
+	Exporter []int `json:"exporter"`
+	Ops      []LOp `json:"ops"`
+}
+
+// secondClosing is the number of queue slots the closing section of a second
+// processor can need (one span, one flush marker).
+const secondClosing = 2
 
 func lifeCtx(t int) (context.Context, context.CancelFunc) {
 	switch {
@@ -175,6 +217,37 @@ func genLife(t *rapid.T) LifeCase {
 	c.BatchTimeoutUs = rapid.SampledFrom([]int64{1000, 10000, 3600e6, 3600e6, 3600e6}).Draw(t, "batch_timeout")
 	c.ExportTimeoutUs = rapid.SampledFrom([]int64{0, 2000, 1e6}).Draw(t, "export_timeout")
 	c.Exporter = rapid.SliceOfN(rapid.SampledFrom([]int{0, 0, 0, 1, 2, 3, 4, 5, 7}), 0, 6).Draw(t, "exporter")
+	afterFirstShutdown := len(c.Ops)
+	for i, op := range c.Ops {
+		if op.K == "shutdown" {
+			afterFirstShutdown = i + 1
+			break
+		}
+	}
+	for i, n := 0, rapid.SampledFrom([]int{0, 0, 1, 1, 1, 2, 3}).Draw(t, "second_processors"); i < n; i++ {
+		sp := SecondProc{}
+		sp.At = rapid.OneOf(rapid.Just(afterFirstShutdown), rapid.IntRange(0, len(c.Ops))).Draw(t, "second_at")
+		total, flushes := 0, 0
+		for j, m := 0, rapid.IntRange(1, 5).Draw(t, "second_ops"); j < m; j++ {
+			if j == 0 || rapid.IntRange(0, 2).Draw(t, "second_kind") < 2 {
+				op := LOp{K: "end", N: rapid.IntRange(1, 6).Draw(t, "spans"), U: rapid.IntRange(0, 7).Draw(t, "unsampled") == 0}
+				total += op.N
+				sp.Ops = append(sp.Ops, op)
+			} else {
+				flushes++
+				sp.Ops = append(sp.Ops, LOp{K: "flush", T: rapid.IntRange(0, 1).Draw(t, "second_flush_ctx")})
+			}
+		}
+		sp.Blocking = rapid.Bool().Draw(t, "second_blocking")
+		if sp.Blocking {
+			sp.Queue = rapid.IntRange(1, 8).Draw(t, "second_queue")
+		} else {
+			sp.Queue = total + flushes + secondClosing + rapid.IntRange(0, 4).Draw(t, "second_queue_spare")
+		}
+		sp.Batch = rapid.OneOf(rapid.Just(c.Batch), rapid.Just(c.Batch), rapid.IntRange(1, sp.Queue+2)).Draw(t, "second_batch")
+		sp.Exporter = rapid.SliceOfN(rapid.SampledFrom([]int{0, 0, 0, 1, 2, 3}), 0, 4).Draw(t, "second_exporter")
+		c.Second = append(c.Second, sp)
+	}
 	return c
 }
 
@@ -205,10 +278,7 @@ func runLife(c LifeCase) ([]vk.Violation, vk.Info) {
 	otel.SetErrorHandler(&vk.ErrCapture{})
 
 	exp := &recExporter{clock: clock, script: c.Exporter}
-	exp.idOf = func(s sdktrace.ReadOnlySpan) int {
-		sid := s.SpanContext().SpanID()
-		return int(binary.BigEndian.Uint64(sid[:])) - 1
-	}
+	exp.idOf = lifeIDOf(1)
 	opts := []sdktrace.BatchSpanProcessorOption{
 		sdktrace.WithMaxQueueSize(max(c.Queue, 1)), sdktrace.WithMaxExportBatchSize(max(c.Batch, 1)),
 		sdktrace.WithBatchTimeout(time.Duration(max(c.BatchTimeoutUs, 1000)) * time.Microsecond),
@@ -251,8 +321,20 @@ func runLife(c LifeCase) ([]vk.Violation, vk.Info) {
 		calls = append(calls, r)
 		return r
 	}
+	seconds := make([]*secondRun, len(c.Second))
+	for k := range c.Second {
+		seconds[k] = &secondRun{k: k, p: c.Second[k], clock: clock}
+	}
+	startSeconds := func(i int, last bool) {
+		for _, sr := range seconds {
+			if sr.bsp == nil && (sr.p.At <= i || last) {
+				sr.start()
+			}
+		}
+	}
 	totalEnds, flushCalls := 0, 0
-	for _, op := range c.Ops {
+	for i, op := range c.Ops {
+		startSeconds(i, false)
 		switch op.K {
 		case "end":
 			totalEnds += max(op.N, 1)
@@ -266,6 +348,7 @@ func runLife(c LifeCase) ([]vk.Violation, vk.Info) {
 			time.Sleep(300 * time.Microsecond)
 		}
 	}
+	startSeconds(len(c.Ops), true)
 	// closing section
 	call("shutdown", 0)
 	lateFrom := len(spans)
@@ -274,6 +357,9 @@ func runLife(c LifeCase) ([]vk.Violation, vk.Info) {
 	end(1, false)
 	call("flush", 0)
 	call("shutdown", 0)
+	for _, sr := range seconds {
+		sr.finish()
+	}
 
 	exportedIDs := func() map[int]bool {
 		m := map[int]bool{}
@@ -323,7 +409,13 @@ func runLife(c LifeCase) ([]vk.Violation, vk.Info) {
 		}
 		for _, id := range ec.ids {
 			if id < 0 || id >= len(spans) {
-				bad("unknown_span_exported", "ExportSpans call %d received a span the program never ended (id %d)", ci, id)
+				what := fmt.Sprintf("id %d", id)
+				if id == -1 {
+					what = "a nil entry"
+				} else if id == -2 {
+					what = "a span ended on ANOTHER batch span processor of the process"
+				}
+				bad("unknown_span_exported", "ExportSpans call %d of the first processor's exporter received a span its program never ended (%s)", ci, what)
 				continue
 			}
 			if _, dup := where[id]; dup {
@@ -459,6 +551,23 @@ func runLife(c LifeCase) ([]vk.Violation, vk.Info) {
 		}
 	}
 
+	for _, sr := range seconds {
+		sr.judge(bad, &info)
+		info.Class("second_processor")
+		info.ClassIf(max(sr.p.Batch, 1) == max(c.Batch, 1), "second_processor_with_the_same_MaxExportBatchSize")
+		if sr.createdAt > firstIssue && firstShutdown.err != nil {
+			info.Class("second_processor_created_after_the_first_Shutdown_returned_error")
+			busy := false
+			for ci := range ecalls {
+				if ecalls[ci].exit == 0 || ecalls[ci].exit > sr.createdAt {
+					busy = true
+				}
+			}
+			info.ClassIf(busy, "second_processor_used_while_the_first_was_still_exporting(observed)")
+		}
+	}
+	info.ClassIf(len(seconds) >= 2, "two_or_more_second_processors")
+
 	nshut := 0
 	for _, op := range c.Ops {
 		if op.K == "shutdown" {
@@ -491,10 +600,165 @@ func runLife(c LifeCase) ([]vk.Violation, vk.Info) {
 	return vs, info
 }
 
+// lifeIDOf maps a span handed to the exporter of processor number tid (its
+// spans carry TraceID{tid}) back to its index; a nil entry is -1, a span of
+// another processor -2: both are "a span this processor's program never ended".
+func lifeIDOf(tid byte) func(sdktrace.ReadOnlySpan) int {
+	return func(s sdktrace.ReadOnlySpan) int {
+		if s == nil {
+			return -1
+		}
+		sc := s.SpanContext()
+		if sc.TraceID() != (trace.TraceID{tid}) {
+			return -2
+		}
+		sid := sc.SpanID()
+		return int(binary.BigEndian.Uint64(sid[:])) - 1
+	}
+}
+
+// secondRun is the run-time state of one SecondProc.
+type secondRun struct {
+	k         int
+	p         SecondProc
+	clock     *vk.Clock
+	exp       *recExporter
+	bsp       sdktrace.SpanProcessor
+	spans     []lifeSpan
+	calls     []*lifeCall
+	createdAt int64
+	ends      int
+	flushes   int
+}
+
+func (sr *secondRun) end(n int, unsampled bool) {
+	for j := 0; j < n; j++ {
+		var sid trace.SpanID
+		binary.BigEndian.PutUint64(sid[:], uint64(len(sr.spans)+1))
+		snap := tracetest.SpanStub{
+			Name:        "s2",
+			SpanContext: trace.NewSpanContext(trace.SpanContextConfig{TraceID: trace.TraceID{byte(2 + sr.k)}, SpanID: sid, TraceFlags: spanFlags(0, unsampled)}),
+		}.Snapshot()
+		s := lifeSpan{sampled: !unsampled, start: sr.clock.Tick()}
+		sr.bsp.OnEnd(snap)
+		s.ret = sr.clock.Tick()
+		sr.spans = append(sr.spans, s)
+		sr.ends++
+	}
+}
+
+func (sr *secondRun) call(kind string, t int) {
+	ctx, cancel := lifeCtx(t & 1) // live contexts only
+	defer cancel()
+	r := &lifeCall{t: t & 1}
+	r.kind = kind
+	r.start = sr.clock.Tick()
+	if kind == "flush" {
+		sr.flushes++
+		r.err = sr.bsp.ForceFlush(ctx)
+	} else {
+		r.err = sr.bsp.Shutdown(ctx)
+	}
+	r.end = sr.clock.Tick()
+	sr.calls = append(sr.calls, r)
+}
+
+func (sr *secondRun) start() {
+	sr.exp = &recExporter{clock: sr.clock, script: sr.p.Exporter, idOf: lifeIDOf(byte(2 + sr.k))}
+	opts := []sdktrace.BatchSpanProcessorOption{
+		sdktrace.WithMaxQueueSize(max(sr.p.Queue, 1)), sdktrace.WithMaxExportBatchSize(max(sr.p.Batch, 1)),
+		sdktrace.WithBatchTimeout(time.Hour),
+	}
+	if sr.p.Blocking {
+		opts = append(opts, sdktrace.WithBlocking())
+	}
+	sr.createdAt = sr.clock.Tick()
+	sr.bsp = sdktrace.NewBatchSpanProcessor(sr.exp, opts...)
+	for _, op := range sr.p.Ops {
+		switch op.K {
+		case "end":
+			sr.end(max(op.N, 1), op.U)
+		case "flush":
+			sr.call("flush", op.T)
+		}
+	}
+}
+
+func (sr *secondRun) finish() {
+	sr.end(1, false)
+	sr.call("flush", 0)
+	sr.call("shutdown", 0)
+}
+
+// judge holds a second processor to the statement against its own exporter:
+// all its calls had live contexts, all its Ends were issued before its only
+// Shutdown, its queue cannot fill.
+func (sr *secondRun) judge(bad func(kind, format string, a ...any), info *vk.Info) {
+	who := fmt.Sprintf("second processor %d (created t=%d, batch=%d)", sr.k, sr.createdAt, sr.p.Batch)
+	exp := sr.exp
+	exp.mu.Lock()
+	ecalls := make([]exportCall, len(exp.calls))
+	for k, ec := range exp.calls {
+		ecalls[k] = *ec
+	}
+	exp.mu.Unlock()
+	where := map[int]*exportCall{}
+	for ci := range ecalls {
+		ec := &ecalls[ci]
+		if len(ec.ids) > max(sr.p.Batch, 1) {
+			bad("batch_too_large", "%s: ExportSpans call %d received %d spans, MaxExportBatchSize is %d", who, ci, len(ec.ids), sr.p.Batch)
+		}
+		for _, id := range ec.ids {
+			if id < 0 || id >= len(sr.spans) {
+				what := "a nil span"
+				if id != -1 {
+					what = "a span of another processor"
+				}
+				bad("unknown_span_exported", "%s: ExportSpans call %d of its exporter received %s (a span its program never ended)", who, ci, what)
+				continue
+			}
+			if _, dup := where[id]; dup {
+				bad("exported_twice", "%s: span %d handed to the exporter twice", who, id)
+			}
+			where[id] = ec
+			if !sr.spans[id].sampled {
+				bad("unsampled_exported", "%s: unsampled span %d was exported", who, id)
+			}
+		}
+	}
+	if k := exp.overlap.Load() + exp.shutdownOverlap.Load(); k > 0 {
+		bad("concurrent_export", "%s: the exporter was entered %d time(s) while another call on it was still running", who, k)
+	}
+	droppable := !sr.p.Blocking && sr.p.Queue < sr.ends+sr.flushes
+	for _, r := range sr.calls {
+		if r.err != nil {
+			info.Class(fmt.Sprintf("second_processor_%s_returned_error", r.kind))
+			continue
+		}
+		for id, s := range sr.spans {
+			if !s.sampled || s.ret > r.start {
+				continue
+			}
+			if ec, ok := where[id]; ok && ec.enter > r.end {
+				bad("not_flushed", "%s: span %d (End returned t=%d) was handed to the exporter only at t=%d, after %s t=%d..%d had returned nil", who, id, s.ret, ec.enter, r.kind, r.start, r.end)
+			} else if !ok && !droppable {
+				bad("lost", "%s: span %d (End returned t=%d) was never handed to its exporter although %s t=%d..%d (live context) returned nil (blocking=%v queue=%d)", who, id, s.ret, r.kind, r.start, r.end, sr.p.Blocking, sr.p.Queue)
+			}
+		}
+		if r.kind == "shutdown" {
+			for ci := range ecalls {
+				if ecalls[ci].enter > r.end {
+					bad("export_after_shutdown", "%s: ExportSpans call %d started (t=%d) after Shutdown had returned nil (t=%d)", who, ci, ecalls[ci].enter, r.end)
+				}
+			}
+		}
+	}
+}
+
 func TestBatchSpanProcessorLifeCycle(t *testing.T) {
 	vk.Run(t, vk.Spec[LifeCase]{
 		Property: "C01", Check: "bsp_lifecycle",
-		Rule: "generated sequential life cycles of one bare batch span processor: End bursts, ForceFlush and 0-3 Shutdown calls in generated order, each call with a generated context (live, far deadline, already cancelled, deadline already passed, cancelled in flight, 50us-5ms deadline), always closed by Shutdown(live) / End / ForceFlush / End / ForceFlush / Shutdown(live); blocking or a queue that can never fill; batch timeout 1ms/10ms/1h; exporter fault plans (ok/error/slow/hung/ctx-bound); " +
+		Rule: "generated sequential life cycles of one bare batch span processor: End bursts, ForceFlush and 0-3 Shutdown calls in generated order, each call with a generated context (live, far deadline, already cancelled, deadline already passed, cancelled in flight, 50us-5ms deadline), always closed by Shutdown(live) / End / ForceFlush / End / ForceFlush / Shutdown(live); blocking or a queue that can never fill; batch timeout 1ms/10ms/1h; exporter fault plans (ok/error/slow/hung/ctx-bound); 0-3 further batch span processors with their own exporters (mostly the same MaxExportBatchSize), created at a generated point of the program (mostly right after the first Shutdown call), used at once (End bursts, ForceFlush) and closed by End / ForceFlush / Shutdown, each judged against its own exporter; " +
 			"non-trivial = something was exported and at least one call that returned nil was held to the delivery clause; distinct = distinct case encodings",
 		Quick: 400, Thorough: 6000,
 		Gen: genLife, Run: runLife, Repeat: 5,
